@@ -2,9 +2,9 @@
 import os
 import random
 
-from .. import common, drive, gen, prog as P, render, rewrite, tlc
+from .. import cdrive, common, drive, gen, prog as P, render, rewrite, tlc
 from ..report import Report
-from . import comptrace, pywire
+from . import comptrace, cwire, pywire
 
 
 def encode_py(pr, t, values, d):
@@ -106,6 +106,45 @@ def main(tier, replay=None):
                 prev = ver
             wtraces.append({"id": "c12-chain-%d" % k, "t": {"k": "bool"}, "events": events})
             wmeta.append(srcs)
+        # ---- the C encoders along the same chains: -O when every version is traditional, standard mode else ----
+        worker = cdrive.Worker()
+        try:
+            builder = cdrive.CBuilder(scratch, cflags=("-O1",))
+            ccases, cmeta2 = [], []
+            for k, versions in enumerate(chains):
+                usable = [v for v in versions if v.get("bufs") is not None and v.get("t") is not None]
+                if len(usable) < 2 or (k % 2 and tier == "quick"):
+                    continue
+                trad = all(not gen.has_ext(v["t"]) for v in usable)
+                for vi, ver in enumerate(usable):
+                    pr = dict(ver["pr"], rtype=ver["t"])
+                    cc = cwire.CCase("c12-c-%d-%d" % (k, vi), pr, ver["vals"])
+                    ccases.append(cc)
+                    cmeta2.append((k, vi, trad, ver))
+            by_mode = {True: [], False: []}
+            for cc, m in zip(ccases, cmeta2):
+                by_mode[m[2]].append((cc, m))
+            for trad, items in by_mode.items():
+                if not items:
+                    continue
+                built = cwire.prepare([cc for cc, _ in items], scratch, builder, optimize=trad)
+                for (cc, lib), (_, m) in zip(built, items):
+                    if lib is not None:
+                        cwire.drive_case(cc, lib, worker, want=("enc",))
+                    m[3]["cbufs"] = [bytes(e["bytes"]) for e in cc.events if e["ev"] == "CEncode"]
+                    m[3]["cmode"] = "c -O" if trad else "c"
+            # bytes of consecutive versions must agree in C too
+            prev = {}
+            for cc, (k, vi, trad, ver) in zip(ccases, cmeta2):
+                if k in prev and prev[k].get("cbufs") and ver.get("cbufs") and len(prev[k]["cbufs"]) == len(ver["cbufs"]):
+                    for a, b in zip(prev[k]["cbufs"], ver["cbufs"]):
+                        cc.events.append({"ev": "SameBytes", "a": list(a), "b": list(b)})
+                        cc.event_src.append(-1)
+                prev[k] = ver
+                cc.note = {"steps": [v["descr"] for v in chains[k][:chains[k].index(ver) + 1]], "mode": ver.get("cmode")}
+            pywire.validate_and_decide(rep, ccases, count_events=("CEncode",))
+        finally:
+            worker.close()
         wverdicts, r2 = tlc.validate_traces("WireTrace", "WireTrace.cfg", wtraces)
         rep.add_tlc(r2, "trace-validation:bytes of every version against Wire!Enc of the spec-resolved type")
     rep.cov["traces_validated_against_impl"] = len(wtraces)
